@@ -199,7 +199,7 @@ class SymTable(dict, _IntKeyed):
         return fork_lookup(self, key)
 
     def __getitem__(self, key):
-        if not _isinstance(key, (SymInt, SymBool, SymBytes, ShByteArray)):
+        if not _symkey(key):
             return dict.__getitem__(self, key)
         found, v = self._find(key)
         if not found:
@@ -207,13 +207,13 @@ class SymTable(dict, _IntKeyed):
         return v
 
     def get(self, key, default=None):
-        if not _isinstance(key, (SymInt, SymBool, SymBytes, ShByteArray)):
+        if not _symkey(key):
             return dict.get(self, key, default)
         found, v = self._find(key)
         return v if found else default
 
     def __contains__(self, key):
-        if not _isinstance(key, (SymInt, SymBool, SymBytes, ShByteArray)):
+        if not _symkey(key):
             return dict.__contains__(self, key)
         found, _ = self._find(key)
         return found
@@ -233,11 +233,16 @@ def fork_lookup(d, key):
     return False, None
 
 
+def _symkey(key):
+    from .strings import SymStr
+    return _isinstance(key, (SymInt, SymBool, SymBytes, ShByteArray, SymStr))
+
+
 class SymDict(dict):
     """instance dictionaries with symbolic lookups (Enum.decmapping, Switch.cases, ...)"""
 
     def __getitem__(self, key):
-        if not _isinstance(key, (SymInt, SymBool, SymBytes, ShByteArray)):
+        if not _symkey(key):
             return dict.__getitem__(self, key)
         found, v = fork_lookup(self, key)
         if not found:
@@ -245,13 +250,13 @@ class SymDict(dict):
         return v
 
     def get(self, key, default=None):
-        if not _isinstance(key, (SymInt, SymBool, SymBytes, ShByteArray)):
+        if not _symkey(key):
             return dict.get(self, key, default)
         found, v = fork_lookup(self, key)
         return v if found else default
 
     def __contains__(self, key):
-        if not _isinstance(key, (SymInt, SymBool, SymBytes, ShByteArray)):
+        if not _symkey(key):
             return dict.__contains__(self, key)
         found, _ = fork_lookup(self, key)
         return found
